@@ -8,12 +8,17 @@ From ASModel Require Import Base State.
 Import ListNotations.
 Local Open Scope N_scope.
 
-Fixpoint fsum (dom : list N) (f : N -> N) : N :=
+Section Sum.
+Context {A : Type} `{EqDecision A}.
+
+Fixpoint fsum (dom : list A) (f : A -> N) : N :=
   match dom with [] => 0 | k :: d => f k + fsum d f end.
 
-Definition covers (f : N -> N) (dom : list N) : Prop := List.NoDup dom /\ forall k, f k <> 0 -> In k dom.
+Definition covers (f : A -> N) (dom : list A) : Prop := List.NoDup dom /\ forall k, f k <> 0 -> In k dom.
 
-Definition Total (f : N -> N) (n : N) : Prop := exists dom, covers f dom /\ fsum dom f = n.
+Definition Total (f : A -> N) (n : N) : Prop := exists dom, covers f dom /\ fsum dom f = n.
+
+Definition adec : forall x y : A, {x = y} + {x <> y} := fun x y => decide (x = y).
 
 Lemma fsum_ext dom f g : (forall k, In k dom -> f k = g k) -> fsum dom f = fsum dom g.
 Proof.
@@ -33,7 +38,7 @@ Proof.
   rewrite (H k) by (left; reflexivity). rewrite IH; [reflexivity|]. intros; apply H; right; assumption.
 Qed.
 
-Lemma fsum_split (dom : list N) (f : N -> N) (k : N) : List.NoDup dom -> In k dom ->
+Lemma fsum_split (dom : list A) (f : A -> N) (k : A) : List.NoDup dom -> In k dom ->
   exists d', Permutation dom (k :: d') /\ List.NoDup d' /\ ~ In k d'.
 Proof.
   intros Hnd Hin. apply in_split in Hin as (l1 & l2 & ->).
@@ -69,7 +74,7 @@ Proof.
   apply fsum_ext. intros; symmetry; apply E.
 Qed.
 
-Lemma Total_zero : Total (fun _ => 0) 0.
+Lemma Total_zero : Total (fun _ : A => 0) 0.
 Proof. exists []. split; [split; [constructor|intros k H; congruence]|reflexivity]. Qed.
 
 Lemma Total_zero_iff f : (forall k, f k = 0) -> Total f 0.
@@ -86,7 +91,7 @@ Lemma Total_upd f n k v : Total f n -> exists m, Total (upd f k v) m /\ m + f k 
 Proof.
   intros (d & [Nd C] & <-).
   assert (Hin : exists d2, List.NoDup d2 /\ In k d2 /\ (forall j, In j d -> In j d2) /\ fsum d2 f = fsum d f).
-  { destruct (in_dec N.eq_dec k d) as [I|I]; [exists d; auto|].
+  { destruct (in_dec adec k d) as [I|I]; [exists d; auto|].
     exists (k :: d). split; [constructor; assumption|]. split; [left; reflexivity|]. split; [intros; right; assumption|].
     cbn. destruct (N.eq_dec (f k) 0) as [E|E]; [lia|]. elim I. apply C. exact E. }
   destruct Hin as (d2 & Nd2 & Ik & Sub & Es). rewrite <- Es.
@@ -113,7 +118,7 @@ Proof. intros T H. pose proof (Total_ge f n k T). lia. Qed.
 Lemma Total_add f g n m : Total f n -> Total g m -> Total (fun k => f k + g k) (n + m).
 Proof.
   intros (d1 & [N1 C1] & <-) (d2 & [N2 C2] & <-).
-  set (d := nodup N.eq_dec (d1 ++ d2)).
+  set (d := nodup adec (d1 ++ d2)).
   assert (Nd : List.NoDup d) by apply NoDup_nodup.
   assert (Cf : covers f d).
   { split; [exact Nd|]. intros k Hk. apply nodup_In, in_or_app. left. apply C1. exact Hk. }
@@ -131,7 +136,7 @@ Qed.
 Lemma Total_le f g n m : (forall k, f k <= g k) -> Total f n -> Total g m -> n <= m.
 Proof.
   intros Hle (d1 & [N1 C1] & <-) (d2 & [N2 C2] & <-).
-  set (d := nodup N.eq_dec (d1 ++ d2)).
+  set (d := nodup adec (d1 ++ d2)).
   assert (Nd : List.NoDup d) by apply NoDup_nodup.
   assert (E1 : fsum d1 f = fsum d f).
   { apply (Total_unique f); [exists d1|exists d]; (split; [split|reflexivity]); auto.
@@ -141,3 +146,5 @@ Proof.
     intros k Hk. apply nodup_In, in_or_app. right. apply C2. exact Hk. }
   rewrite E1, E2. clear -Hle. induction d as [|k d IH]; cbn; [lia|]. pose proof (Hle k). lia.
 Qed.
+
+End Sum.
